@@ -194,6 +194,13 @@ Breaks(m) ==
   \cup {B("R_doc_refs", "attr_own", k, 0) : k \in {x \in TIdx(m) : m.types[x].kind # "cprim"}}
   \cup {B("R_doc_refs", "attr_of", k, j) : k \in TIdx(m), j \in TIdx(m)}
   \cup {B("R_doc_refs", "attr_type", k, 0) : k \in TIdx(m)}
+  \cup {b \in [rule : {"R_doc_refs"}, variant : {"attr_shared"}, k : TIdx(m), j : TIdx(m)] :
+            \* k takes over the whole documentation of j (byte-identical text on two types) where a relative
+            \* reference :attr:`x` of j resolves in j but names nothing in k
+            /\ b.k # b.j /\ m.types[b.k].kind # "cprim" /\ m.types[b.j].kind # "cprim"
+            /\ \E i \in DOMAIN m.types[b.j].refs :
+                  LET r == m.types[b.j].refs[i]
+                  IN  r.role = "attr" /\ r.type = "" /\ AttrResolvesA(m, AM, b.j, r.attr) /\ ~AttrResolvesA(m, AM, b.k, r.attr)}
     \* --- R_pattern_anchored
   \cup {B("R_pattern_anchored", v, f, 0) : v \in {"no_start", "no_end", "empty"},
                                             f \in {x \in PatternIdx(m) : m.funcs[x].pattern # <<>>}}
@@ -262,7 +269,8 @@ Apply(b, m) ==
             (CASE b.variant = "class" -> SetT(m, b.k, [t EXCEPT !.refs = Append(@, RefClass("Missing_type"))])
                [] b.variant = "attr_own" -> SetT(m, b.k, [t EXCEPT !.refs = Append(@, RefAttr("", "missing_attribute"))])
                [] b.variant = "attr_of" -> SetT(m, b.k, [t EXCEPT !.refs = Append(@, RefAttr(m.types[b.j].name, "missing_attribute"))])
-               [] b.variant = "attr_type" -> SetT(m, b.k, [t EXCEPT !.refs = Append(@, RefAttr("Missing_type", "some_attribute"))]))
+               [] b.variant = "attr_type" -> SetT(m, b.k, [t EXCEPT !.refs = Append(@, RefAttr("Missing_type", "some_attribute"))])
+               [] b.variant = "attr_shared" -> SetT(m, b.k, [t EXCEPT !.refs = m.types[b.j].refs]))
       [] b.rule = "R_pattern_anchored" ->
             (LET p == m.funcs[b.k].pattern
                  q == CASE b.variant = "no_start" -> Tail(p)
